@@ -179,7 +179,7 @@ pub fn market_session<const A: usize, const L: usize>(cfg: &MarketCfg, cs: &mut 
         // clock: advance before most operations (disciplined clock; one shared clock for all assets)
         if rng.chance(0.8) {
             t += rng.range(1, 5);
-            m.set_time(t);
+            let _ = m.set_time(t);
             for b in sh.iter_mut() {
                 b.set_time(t);
             }
@@ -232,10 +232,10 @@ pub fn market_session<const A: usize, const L: usize>(cfg: &MarketCfg, cs: &mut 
                 if let Some(id) = pick_id(&mut rng) {
                     log.push(format!("place ({}, {})", a, id));
                     if rng.chance(0.5) {
-                        m.place_order((a, id));
+                        let _ = m.place_order((a, id));
                     } else {
                         cs.events += 1;
-                        m.process_event(Event::New { order_id: (a, id) });
+                        let _ = m.process_event(Event::New { order_id: (a, id) });
                     }
                     sh[a].place_order(id);
                 }
@@ -244,10 +244,10 @@ pub fn market_session<const A: usize, const L: usize>(cfg: &MarketCfg, cs: &mut 
                     cs.cancels += 1;
                     log.push(format!("cancel ({}, {})", a, id));
                     if rng.chance(0.5) {
-                        m.cancel_order((a, id));
+                        let _ = m.cancel_order((a, id));
                     } else {
                         cs.events += 1;
-                        m.process_event(Event::Cancellation { order_id: (a, id) });
+                        let _ = m.process_event(Event::Cancellation { order_id: (a, id) });
                     }
                     sh[a].cancel_order(id);
                 }
@@ -261,12 +261,16 @@ pub fn market_session<const A: usize, const L: usize>(cfg: &MarketCfg, cs: &mut 
                     let nv = if rng.chance(0.7) { Some(rng.range(1, 90) as u32) } else { None };
                     log.push(format!("modify ({}, {}) price {:?} vol {:?}", a, id, np, nv));
                     match rng.below(3) {
-                        0 => m.modify_order((a, id), np, nv),
+                        0 => {
+                            let _ = m.modify_order((a, id), np, nv);
+                        }
                         1 => {
                             cs.events += 1;
-                            m.process_event(Event::Modify { order_id: (a, id), new_price: np, new_vol: nv })
+                            let _ = m.process_event(Event::Modify { order_id: (a, id), new_price: np, new_vol: nv });
                         }
-                        _ => m.get_order_book_mut(a).modify_order(id, np, nv),
+                        _ => {
+                            let _ = m.get_order_book_mut(a).modify_order(id, np, nv);
+                        }
                     }
                     sh[a].modify_order(id, np, nv);
                 }
@@ -277,9 +281,9 @@ pub fn market_session<const A: usize, const L: usize>(cfg: &MarketCfg, cs: &mut 
                 log.push(format!("set trading {}", trading));
                 let before: Vec<_> = (0..A).map(|k| m.get_order_book(k).obs()).collect();
                 if trading {
-                    m.enable_trading();
+                    let _ = m.enable_trading();
                 } else {
-                    m.disable_trading();
+                    let _ = m.disable_trading();
                 }
                 for b in sh.iter_mut() {
                     if trading {
@@ -318,9 +322,9 @@ pub fn market_session<const A: usize, const L: usize>(cfg: &MarketCfg, cs: &mut 
                     trading = if rng.chance(0.5) { on_off } else { !on_off };
                     log.push(format!("set trading {}", trading));
                     if trading {
-                        m.enable_trading();
+                        let _ = m.enable_trading();
                     } else {
-                        m.disable_trading();
+                        let _ = m.disable_trading();
                     }
                     for b in sh.iter_mut() {
                         if trading {
@@ -343,7 +347,7 @@ pub fn market_session<const A: usize, const L: usize>(cfg: &MarketCfg, cs: &mut 
                 }
             } else if r < 95 {
                 log.push("reset trade vols".into());
-                m.reset_trade_vols();
+                let _ = m.reset_trade_vols();
                 for b in sh.iter_mut() {
                     b.reset_trade_vol();
                 }
